@@ -1,7 +1,13 @@
 """C05 implementation driver: pads real renders with the new Padding classes, with
 Renderable.render(padding=...), and with the old image API (_check_formatting +
 _format_render / format()); and runs whole HISTORIES (kind "history": resizes, RenderIterator
-set_padding / set_render_size / seek / next, per-call paddings) in one forked process each."""
+set_padding / set_render_size / seek / next, per-call paddings) in one forked process each.
+
+Round 6: (a) render CONTENT - a case's inner render may be {"style": "text", "cells": [w, h], "lines": [...]}: the
+lines of a user-defined text renderable, given verbatim (glyphs, escape sequences in the middle of a line,
+characters that occupy no column); padded directly, through Renderable.render(padding=) and as a RenderIterator
+frame.  (b) kind "anim": Renderable.draw() of a multi-frame text renderable with a padding, standard output
+connected to a pty; returns everything that arrived on the master side and the frames in the order drawn."""
 import os
 
 import implenv
@@ -52,6 +58,21 @@ class Sized(Renderable):
         return Frame(d.frame_offset, 1, Size(w, h), "\n".join(["#" * w] * h))
 
 
+class Text(Renderable):
+    """A user-defined text renderable: frame k is the given lines of frame k, whatever they contain."""
+
+    def __init__(self, frames, size):
+        super().__init__(len(frames), 1)
+        self._frames, self._sz = frames, size
+
+    def _get_render_size_(self):
+        return Size(*self._sz)
+
+    def _render_(self, render_data, render_args):
+        d = render_data[Renderable]
+        return Frame(d.frame_offset, 1, Size(*self._sz), "\n".join(self._frames[d.frame_offset]))
+
+
 def make_padding(p, fill):
     if p["kind"] == "aligned":
         return AlignedPadding(p["W"], p["H"], HAlign(p["ha"]), VAlign(p["va"]), fill)
@@ -70,7 +91,13 @@ def run_case(case):
                 return {"raised": 0}
             except ValueError:
                 return {"raised": 1}
-        inner = impl_render.run_case(case["render"])
+        if case.get("kind") == "anim":
+            return run_anim(case)
+        text = case["render"]["style"] == "text"
+        if text:  # the lines of a text renderable, verbatim
+            inner = {"out": "\n".join(case["render"]["lines"]), "rendered_size": case["render"]["cells"]}
+        else:
+            inner = impl_render.run_case(case["render"])
         if "error" in inner:
             return {"error": "inner render: " + inner["error"]}
         R = inner["out"]
@@ -95,7 +122,18 @@ def run_case(case):
                 assert pad.resolve(ts) is pad
             res["relative_raises"] = rel_raises
             via = case.get("via", "pad")
-            if via == "iterator":
+            if via == "iterator" and text:
+                # a frame of a RenderIterator over a two-frame text renderable (the second frame)
+                from term_image.render import RenderIterator
+                it = RenderIterator(Text([["?" * w] * h, case["render"]["lines"]], (w, h)), padding=pad)
+                try:
+                    next(it)
+                    frame = next(it)
+                finally:
+                    it.close()
+                res["out"] = frame.render_output
+                res["frame_size"] = list(frame.render_size)
+            elif via == "iterator":
                 # a frame of a RenderIterator whose render size was changed with set_render_size()
                 # BEFORE set_padding(): the padding applies to the size the frames are rendered at
                 from term_image.render import RenderIterator
@@ -164,6 +202,72 @@ def run_case(case):
         return {"error": f"{type(e).__name__}: {e} {traceback.format_exc()[-300:]}"}
     finally:
         _common.get_terminal_size, _rmod.get_terminal_size, term_image.utils.get_terminal_size = saved
+
+
+# ------------------------------------------------------------------------------- animated draws
+def capture_pty(fn):
+    """fn() with sys.stdout connected to a pty slave (isatty() holds; output post-processing off, so the
+    master side sees exactly what was written); returns (text that arrived on the master side, exception)"""
+    import pty
+    import sys
+    import termios
+    import threading
+    master, slave = pty.openpty()
+    attrs = termios.tcgetattr(slave)
+    attrs[1] &= ~termios.OPOST
+    termios.tcsetattr(slave, termios.TCSANOW, attrs)
+    chunks = []
+
+    def reader():
+        while True:
+            try:
+                data = os.read(master, 1 << 16)
+            except OSError:
+                break
+            if not data:
+                break
+            chunks.append(data)
+
+    th = threading.Thread(target=reader, daemon=True)
+    th.start()
+    out = os.fdopen(slave, "w", encoding="utf-8", newline="")
+    saved, exc = sys.stdout, None
+    sys.stdout = out
+    try:
+        fn()
+    except BaseException as e:  # noqa: B902
+        exc = e
+    finally:
+        sys.stdout = saved
+        try:
+            out.flush()
+            termios.tcdrain(slave)
+        except Exception:
+            pass
+        out.close()
+    th.join(5)
+    os.close(master)
+    return b"".join(chunks).decode("utf-8"), exc
+
+
+def run_anim(case):
+    """Renderable.draw() of an animation on a pty (the terminal size is already patched by run_case)"""
+    w, h = case["size"]
+    frames = case["frames"]
+    pad = make_padding(case["padding"], FILLS[case.get("fill", "space")])
+    r = Text(frames, (w, h))
+    loops = case.get("loops", 1)
+    saved_sleep = _rmod.sleep
+    _rmod.sleep = lambda seconds: None
+    try:
+        out, exc = capture_pty(lambda: r.draw(None, pad, loops=loops, cache=case.get("cache", True)))
+    finally:
+        _rmod.sleep = saved_sleep
+    if exc is not None:
+        return {"error": f"draw() raised {type(exc).__name__}: {exc}"}
+    joined = ["\n".join(f) for f in frames]
+    exact = (pad.resolve(os.terminal_size(case["term_size"])) if isinstance(pad, AlignedPadding) else pad).to_exact(Size(w, h))
+    return {"out": out, "frames": joined * loops, "size": [w, h], "dims": list(exact.dimensions)}
 
 
 # ------------------------------------------------------------------------------- histories
